@@ -98,6 +98,7 @@ macro_rules! p3_proof {
         }
     };
 }
+p3_proof!(c02_pmh3_step_m2_n2_w1, 5, c02_pmh3_step::<2, 2>(1.0));
 p3_proof!(c02_pmh3_step_m2_n3_w1, 6, c02_pmh3_step::<2, 3>(1.0));
 p3_proof!(c02_pmh3_step_m3_n4_w1, 7, c02_pmh3_step::<3, 4>(1.0));
 p3_proof!(c02_pmh3_step_m2_n3, 6, c02_pmh3_step::<2, 3>(any_pow2_weight()));
